@@ -20,6 +20,7 @@ ASSUMPTIONS = [
 LOCAL = [0, 1, 2, 3]
 FOREIGN = 9        # module of another project whose index (1) also exists in the local project
 FOREIGN_FAR = 8    # module of another project whose index (6) is beyond the local project's module list
+FOREIGN_CLAIMED = 7  # module CONSTRUCTED with parent=<local project>, index=1 but never attached: not one of its modules
 
 
 # ------------------------------------------------------------------ alphabet
@@ -82,7 +83,7 @@ def alphabet_A6():
     for x in LOCAL:
         ops.append({"op": "rshift", "l": x, "r": FOREIGN})
         ops.append({"op": "lshift", "l": x, "r": FOREIGN})
-        for far in (FOREIGN_FAR,):
+        for far in (FOREIGN_FAR, FOREIGN_CLAIMED):
             ops.append({"op": "connect", "f": x, "t": far})
             ops.append({"op": "connect", "f": far, "t": x})
             ops.append({"op": "connect", "f": x, "t": _neg(far)})
@@ -208,6 +209,7 @@ class LinkSystem:
         for _ in range(4):
             L.p2.new_module(rv.m.Amplifier)
         L.mods[FOREIGN_FAR] = L.p2.new_module(rv.m.Amplifier)      # index 6 >= len(local modules) == 4
+        L.mods[FOREIGN_CLAIMED] = rv.m.Amplifier(parent=L.p, index=1)
         L.saved = 0
         return L
 
@@ -264,12 +266,12 @@ class LinkSystem:
         self._saved_flag = L.saved
         return [
             (list(m.in_links), list(m.in_link_slots), list(m.out_links), list(m.out_link_slots))
-            for m in (L.mods[0], L.mods[1], L.mods[2], L.mods[3], L.f)
+            for m in (L.mods[0], L.mods[1], L.mods[2], L.mods[3], L.f, L.mods[FOREIGN_FAR], L.mods[FOREIGN_CLAIMED])
         ]
 
     def restore(self, L, saved):
         L.saved = self._saved_flag
-        for m, s in zip((L.mods[0], L.mods[1], L.mods[2], L.mods[3], L.f), saved):
+        for m, s in zip((L.mods[0], L.mods[1], L.mods[2], L.mods[3], L.f, L.mods[FOREIGN_FAR], L.mods[FOREIGN_CLAIMED]), saved):
             m.in_links[:] = s[0]
             m.in_link_slots[:] = s[1]
             m.out_links[:] = s[2]
@@ -331,9 +333,10 @@ class LinkSystem:
             if changed:
                 vs.append({"subcheck": "refused-changes-other-pair", "key": {"op": opk},
                            "detail": {"changed": sorted(changed)}})
-            f = L.f
-            if f.in_links or f.out_links or f.in_link_slots or f.out_link_slots:
-                vs.append({"subcheck": "foreign-linked", "key": {"op": opk}, "detail": {}})
+            for f in (L.f, L.mods[FOREIGN_FAR], L.mods[FOREIGN_CLAIMED]):
+                if f.in_links or f.out_links or f.in_link_slots or f.out_link_slots:
+                    vs.append({"subcheck": "foreign-linked", "key": {"op": opk}, "detail": {}})
+                    break
         return vs
 
 
@@ -344,7 +347,7 @@ def op_pattern(op):
             return "~m"
         if isinstance(o, list):
             return "[" + ",".join(shape(x) for x in o) + "]"
-        return "F" if o == FOREIGN else "Ffar" if o == FOREIGN_FAR else "m"
+        return "F" if o == FOREIGN else "Ffar" if o == FOREIGN_FAR else "Fclaimed" if o == FOREIGN_CLAIMED else "m"
     k = op["op"]
     if k == "save":
         return "save"
@@ -553,6 +556,11 @@ def run(ctx):
                           op_indices=rotate(range(len(A1)), ctx.seed), chunk=128)
         ctx.add(r3.violations)
         r3s.append(r3)
+        # ... and the FULL alphabet (list operands, disconnect wrappers, sugar, foreign operands) on the same layouts
+        r4 = explorer.bfs(ctx, LinkSystem(full, holes), (2 if holes == HOLE_LAYOUTS[0] else 1) + (1 if ctx.thorough else 0),
+                          op_indices=rotate(range(len(full)), ctx.seed), chunk=4)
+        ctx.add(r4.violations)
+        r3s.append(r4)
     # sugar differential from every A1 state of depth <= 2
     sugar = alphabet_A5()
     base = [h for fr in r1.frontiers[:3] for h in fr]
@@ -573,8 +581,9 @@ def run(ctx):
         "transitions": r1.transitions + r2.transitions + n_sugar + sum(r.transitions for r in r3s),
         "traces_validated_against_impl": r1.transitions + r2.transitions + n_sugar + sum(r.transitions for r in r3s),
         "exhaustive": not (r1.capped or r2.capped or any(r.capped for r in r3s)),
-        "layouts_with_empty_slots": [{"holes": list(h), "depth_completed": r.depth_completed, "states": r.states}
-                                     for h, r in zip(HOLE_LAYOUTS, r3s)],
+        "layouts_with_empty_slots": [{"holes": list(HOLE_LAYOUTS[i // 2]), "alphabet": "A1" if i % 2 == 0 else "full",
+                                      "depth_completed": r.depth_completed, "states": r.states, "transitions": r.transitions}
+                                     for i, r in enumerate(r3s)],
         "A1": {"ops": len(A1), "depth_completed": r1.depth_completed, "states": r1.states,
                "transitions": r1.transitions, "states_per_level": r1.levels,
                "new_states_replay_verified": r1.replay_verified},
